@@ -64,6 +64,33 @@ PROPS["C19"] = {
     "assumptions": SCHED_ASSUME + ["`ran N tasks` / `no work to do` (run::run_impl) and that tasks_run counts exactly the successful commands are not under contract yet (units run / dirty)",
         "the progress implementations behind &dyn Progress only read the counts they are handed"],
 }
+SCAN_ASSUME = [
+    "Scanner::new is a trusted stub (byte-string literal / slice::ends_with have no Verus model): callers must pass a NUL-terminated buffer (scanner::read_file_with_nul and Parser::new's callers do; not verified)",
+    "str::from_utf8_unchecked, str::strip_suffix(':'), str::parse::<usize> are trusted (R9 wrappers); EvalString::{new,evaluate}, Vars::{insert,get} are stubs in this unit (evaluation is C11's subject)",
+    "R15: fn-pointer parameter of Parser::read_scoped_vars rewritten to impl Fn; R14: `break value` rewritten to an assigned variable; R16/R17 as documented",
+    "the crlf cargo feature is off (default build); usize is 64 bit",
+]
+PROPS["C12"] = {
+    "units": ["scan"],
+    "probes": {"scan": ["parse::Parser::read", "parse::Parser::read_eval", "depfile::parse", "scanner::Scanner::read"]},
+    "level": "proof",
+    "assumptions": SCAN_ASSUME + ["NOT yet covered: Scanner::format_parse_error (str slicing at char boundaries, D4), canonicalize_path's own panics (empty path D2, > 60 components D3) and the n2: error: plumbing in load.rs/run.rs/main.rs",
+        "allocation failure, stack overflow on recursive includes and file I/O are outside the contract language"],
+}
+PROPS["C15"] = {
+    "units": ["scan"],
+    "probes": {"scan": ["depfile::read_path", "depfile::parse", "smallmap::SmallMap::insert"]},
+    "level": "proof",
+    "assumptions": SCAN_ASSUME + ["task::read_depfile (missing file => empty, flattening of the map by iterator adapters, naming the depfile in the error) is not under contract",
+        "the grammar is specified at token level (what delimits a token); equivalence with GNU make's full grammar is not claimed"],
+}
+PROPS["C10"] = {
+    "units": ["scan"],
+    "probes": {"scan": ["parse::Parser::read_build", "parse::Parser::read"]},
+    "level": "proof",
+    "assumptions": SCAN_ASSUME + ["only the structural part is decided: the four input-section counts partition the input list and explicit_outs <= #outs (every subtraction in read_build is a discharged underflow obligation); which token lands in which section, escape rendering and load::Loader::add_build's field mapping are NOT yet under contract",
+        "graph::Build's slice accessors (explicit/dirtying/ordering/validation) are proved in unit graph/sched (tagged C10)"],
+}
 DB_ASSUME = [
     "io model (trusted): Write::write_all appends all bytes or, on error/crash, a prefix; Read::read_exact fails only with UnexpectedEof and exactly when fewer bytes remain (no other I/O errors while loading); BufReader::stream_position reports the bytes consumed",
     "str::len/as_bytes/from_utf8_unchecked are related through one uninterpreted utf-8 function; to_le_bytes/from_le_bytes are the little-endian codecs (R9 wrappers)",
@@ -89,6 +116,21 @@ NOT_APPLICABLE = {
 }
 
 LEVEL_TEXT = {
+    "C12": {
+        "text": "Unbounded proof (Verus) on the real text of scanner.rs (Scanner::{get,peek,next,back,read,skip,skip_spaces,expect}), all of parse.rs's Parser (read, read_vardef, read_scoped_vars, read_rule, read_pool, read_unevaluated_paths_to, read_build, read_default, skip_comment, read_ident, read_eval, read_simple_varname, read_escape, skip_spaces) and depfile.rs (skip_spaces, read_path, parse): every `get_unchecked` (rewritten to a checked index, R3) is in bounds at every call site for every byte string, the scanner's three panics are unreachable, every slice(start,end) has start <= end <= len, and every loop carries a decreases measure (buffer length minus offset) -- so for all inputs the manifest/depfile readers terminate with Ok or a ParseError and never read outside the buffer.",
+        "note": "Found D1 (read past the NUL in read_vardef) -- fixed in /repo. Not yet covered: format_parse_error's str slicing (D4), canonicalize_path panics (D2, D3), error plumbing to `n2: error:`. Trusted: Scanner::new stub, utf-8/str wrappers.",
+        "design_ref": "DESIGN.md §6 C12",
+    },
+    "C15": {
+        "text": "Unbounded proof (Verus) on the real depfile.rs: read_path returns exactly the bytes from the first non-skipped offset up to (excluding) the first delimiter -- NUL, space, newline, or a backslash followed by a newline -- so colons and other backslashes stay inside a token; parse terminates on every input, and (loop invariant) the flattened result equals the concatenation, in order, of the prerequisites read for every entry, except when a target is repeated (known finding D11: SmallMap::insert replaces).",
+        "note": "KNOWN-FINDING D11 printed on the unchanged tree. task::read_depfile glue not under contract.",
+        "design_ref": "DESIGN.md §6 C15",
+    },
+    "C10": {
+        "text": "Unbounded proof (Verus), structural part only: Parser::read_build's result satisfies explicit_ins + implicit_ins + order_only_ins + validation_ins == ins.len() and explicit_outs <= outs.len() for every input text (the three subtractions cannot underflow), and the parser consumes input monotonically; Build's accessor slices are the consecutive ranges explicit | implicit | order-only | validation (units graph/sched).",
+        "note": "Section classification per token, escape semantics, spacing-independence and Loader::add_build's mapping are not decided yet.",
+        "design_ref": "DESIGN.md §6 C10",
+    },
     "C18": {
         "text": "Unbounded proof (Verus): Work::want_file(target) ensures closed_u && closed_v: every wanted build has the producer of each of its explicit, implicit and order-only inputs wanted (an invariant of every moment) and of each validation input wanted (re-established on return, through the re-entrant validation recursion); the target's own producer is wanted; builds already wanted are untouched (mono).",
         "note": "Only the closure half that lives in work.rs is decided; target selection in run::build and -f/-C/builddir are not. Trusted: as C01.",
